@@ -643,6 +643,9 @@ def _parse_replacement_field(state: _ParserState) -> Union[str, ReplacementField
                         break
                     else:
                         index_string.append(char)
+                if not index_string:
+                    state.add_error("empty index in format string")
+                    return ""
                 index_attribute.append((IndexOrAttribute.index, "".join(index_string)))
             elif char == "!":
                 conversion = state.next()
